@@ -104,7 +104,9 @@ func (eis *EVMIndexerService) OnStart() error {
 	if lastIndexedBlock == -1 {
 		lastIndexedBlock = latestBlock
 	} else if lastIndexedBlock < status.SyncInfo.EarliestBlockHeight {
-		lastIndexedBlock = status.SyncInfo.EarliestBlockHeight
+		// the node still serves its earliest block, so that is the next block to index
+		// (lastIndexedBlock is the block BEFORE the first one the loop fetches).
+		lastIndexedBlock = status.SyncInfo.EarliestBlockHeight - 1
 		// Kinda unsafe, but we don't have a better way to do this.
 		// In-case `EarliestBlockHeight` is zero one some nodes, it will be handled by the failure tracker with threshold.
 	}
